@@ -166,7 +166,7 @@ pub fn dt_invariant(cyc: &Cycle, d: &DateTime) -> Result<(), String> {
 }
 
 thread_local! {
-    static REUSED_BUF: std::cell::Cell<[Option<FoundDateTimeKind>; 12]> = const { std::cell::Cell::new([None; 12]) };
+    static REUSED_BUF: std::cell::Cell<[Option<FoundDateTimeKind>; 24]> = const { std::cell::Cell::new([None; 24]) };
     /// results of the previous search of this thread (C17: prefill for the next buffers)
     static PREV_RESULTS: std::cell::RefCell<Vec<Option<FoundDateTimeKind>>> = const { std::cell::RefCell::new(Vec::new()) };
 }
@@ -253,7 +253,9 @@ pub fn check_search(ctx: &Ctx, z: &MZone, zr: TimeZoneRef<'_>, f: &Fields, sweep
         if what != ctx.prop && !(ctx.prop == Prop::C12 && matches!(what, Prop::C05 | Prop::C06)) {
             return;
         }
-        if deleted_candidate && what != Prop::C17 {
+        // (the internal consistency of a returned date-time, C14, and the agreement of the two search routes, C17, do not depend
+        // on what a deleted label denotes)
+        if deleted_candidate && !matches!(what, Prop::C17 | Prop::C14) {
             tl.normalised_deleted += 1;
             return;
         }
@@ -277,7 +279,7 @@ pub fn check_search(ctx: &Ctx, z: &MZone, zr: TimeZoneRef<'_>, f: &Fields, sweep
     // a valid result whose instant lies outside the supported range cannot be constructed: the search must refuse (C14)
     let out_of_range = exp.iter().any(|e| matches!(e, Found::Normal { u, .. } if *u < MIN_UNIX_TIME || *u > MAX_UNIX_TIME));
     if out_of_range {
-        let mut b: [Option<FoundDateTimeKind>; 12] = [None; 12];
+        let mut b: [Option<FoundDateTimeKind>; 24] = [None; 24];
         let r = DateTime::find_n(&mut b, f.y, f.mo, f.d, f.h, f.mi, f.s, f.ns, zr).map(|l| l.data().to_vec());
         match r {
             Err(TzError::OutOfRange) => {}
@@ -292,7 +294,7 @@ pub fn check_search(ctx: &Ctx, z: &MZone, zr: TimeZoneRef<'_>, f: &Fields, sweep
 
     // ---- run the implementation (allocation-free entry point). The buffer is reused across all searches of this thread and
     // never cleared (the documented way of using find_n): stale entries of earlier searches stay behind the written prefix.
-    let mut buf: [Option<FoundDateTimeKind>; 12] = REUSED_BUF.with(|b| b.get());
+    let mut buf: [Option<FoundDateTimeKind>; 24] = REUSED_BUF.with(|b| b.get());
     let res = DateTime::find_n(&mut buf, f.y, f.mo, f.d, f.h, f.mi, f.s, f.ns, zr);
     let list = match res {
         Ok(l) => l,
@@ -306,7 +308,7 @@ pub fn check_search(ctx: &Ctx, z: &MZone, zr: TimeZoneRef<'_>, f: &Fields, sweep
         }
     };
     if !list.is_exhaustive() {
-        report(Prop::C05, json!(format!("{} results", exp.len())), json!(format!("{} results (more than 12)", list.count())), tl);
+        report(Prop::C05, json!(format!("{} results", exp.len())), json!(format!("{} results (more than 24)", list.count())), tl);
         return;
     }
     let got: Vec<FoundDateTimeKind> = list.data().iter().map(|x| x.expect("written slot")).collect();
@@ -1252,19 +1254,19 @@ fn sweep_tie_rules(ctx: &Ctx, tabs: &Tables, thorough: bool) -> Tally {
 fn sweep_many_results(ctx: &Ctx) -> Tally {
     let cyc = ctx.cyc;
     let mut tl = Tally::default();
-    for k in [7usize, 8, 9, 10, 11] {
+    for k in [7usize, 8, 9, 10, 11, 15, 16, 17, 20] {
         for rising in [false, true] {
             for rule_kind in 0..2 {
                 let r = guard(|| {
                     let mut tl = Tally::default();
-                    let types: Vec<MType> = (0..k).map(|i| MType::new(if rising { 1000 * i as i32 } else { 20_000 - 1000 * i as i32 }, i % 2 == 1, Some(&format!("T{:02}", i)))).collect();
-                    let trans: Vec<(i64, usize)> = (1..k).map(|i| (1000 * i as i64 + if rising { 0 } else { 0 }, i)).collect();
+                    let types: Vec<MType> = (0..k).map(|i| MType::new(if rising { 1000 * i as i32 } else { 30_000 - 1000 * i as i32 }, i % 2 == 1, Some(&format!("T{:02}", i)))).collect();
+                    let trans: Vec<(i64, usize)> = (1..k).map(|i| (1000 * i as i64, i)).collect();
                     let rule = if rule_kind == 1 { Some(MRule::Fixed(types[k - 1])) } else { None };
                     let z = MZone { trans, types, leaps: vec![], rule };
                     let iz = ImplZone::from_model(&z).unwrap();
                     let zr = iz.zref().unwrap();
                     tl.zones += 1;
-                    for l in (-2000i64..=32_000).step_by(250) {
+                    for l in (-2000i64..=42_000).step_by(250) {
                         if let Some(f) = Fields::of_local(cyc, l, 0) {
                             check_search(ctx, &z, zr, &f, "many_results", &mut tl);
                         }
